@@ -47,6 +47,8 @@ func (o respOp) String() string {
 		return "AddError"
 	case "copy":
 		return fmt.Sprintf("io.Copy(Resp, plain reader of %q)", o.Data)
+	case "nested":
+		return fmt.Sprintf("WrapH(inner rux router: SetStatus(%d); Write(%q))", o.Code, o.Data)
 	case "redispatch":
 		return "HandleContext(-> /y)"
 	}
@@ -89,6 +91,21 @@ func (o respOp) apply(c *rux.Context) {
 	case "copy":
 		// io.Copy from a reader WITHOUT WriteTo: uses the destination's ReadFrom if it has one
 		_, _ = io.Copy(c.Resp, io.LimitReader(strings.NewReader(o.Data), int64(len(o.Data))))
+	case "nested":
+		// another rux router mounted as a plain http.Handler (WrapH): it gets THIS request's
+		// response writer and runs a complete dispatch of its own on it
+		inner := rux.New()
+		status, body := o.Code, o.Data
+		for _, p := range []string{"/x", "/y"} { // (/y: the request path after a re-dispatch)
+			inner.GET(p, func(ic *rux.Context) {
+				ic.SetStatus(status)
+				if body != "" {
+					_, _ = ic.Resp.Write([]byte(body))
+				}
+			})
+			inner.POST(p, func(ic *rux.Context) { ic.SetStatus(status) })
+		}
+		rux.WrapH(inner)(c)
 	case "redispatch":
 		// hand the context back to the router for another path (HandleContext), once
 		if c.Req.URL.Path != "/y" {
@@ -197,6 +214,14 @@ func (m *respModel) step(o respOp) {
 		m.errRec = true
 	case "copy":
 		if len(o.Data) > 0 {
+			m.write([]byte(o.Data))
+		}
+	case "nested":
+		// the inner router works on THIS request's (lazy) response writer: its status reaches us as a
+		// status setting, its body as a write; its own end-of-dispatch "commit" is again only a
+		// status setting on our writer - the real commit stays where the statement puts it
+		m.status(o.Code)
+		if o.Data != "" && m.method == "GET" {
 			m.write([]byte(o.Data))
 		}
 	case "nocontent":
@@ -398,6 +423,9 @@ func runC08(e *Env) {
 					if o.Kind != "copy" {
 						o.Data = ""
 					}
+				case x < 18 && chance(r, 1, 3) && !fault:
+					o = respOp{Kind: "nested", Code: pick(r, []int{201, 202, 404}), Data: pick(r, []string{"", "in"})}
+					t.Count("programs.nested_rux_router", 1)
 				case x < 18:
 					o = respOp{Kind: "json", Code: pick(r, codes), Data: pick(r, []string{"v", "<a>"})}
 				case x < 19 && !fault:
@@ -450,6 +478,7 @@ func runC08(e *Env) {
 	e.Require("programs.onerror_hook_ran", 300)
 	e.Require("programs.readerfrom_writer", 1000)
 	e.Require("programs.redispatch", 200)
+	e.Require("programs.nested_rux_router", 300)
 }
 
 func c08Check(t *T, p c08Prog) {
